@@ -46,9 +46,17 @@ class ReplayChooser(object):
     return 0
 
 
+FREE_FORCED = [True]
+
+
 def alt_cost(point, alt):
+  """Cost of a non-default choice.  With FREE_FORCED off every departure from the default schedule costs 1
+  (pure deviation bounding); with it on, switches at points where the running thread cannot continue are free
+  (CHESS preemption bounding)."""
   if alt == 0:
     return 0
+  if not FREE_FORCED[0]:
+    return 0 if point['kinds'][alt] == 'gate0' else 1
   if point['kinds'][alt] == 'gate0':
     return 0      # an external trigger the harness declared free (e.g. the operator's abort)
   if point['cur_enabled']:
@@ -80,7 +88,8 @@ LOCAL_BUDGET = 40
 
 def _chunk(item):
   """Worker: explores up to LOCAL_BUDGET executions below a prefix (DFS); returns the unexplored rest."""
-  key, prefix, used, bound = item
+  key, prefix, used, bound, free_forced = item
+  FREE_FORCED[0] = free_forced
   execute, check = _HARNESS[key]
   stack = [(prefix, used)]
   n = steps = 0
@@ -105,7 +114,7 @@ def _chunk(item):
   return n, steps, viols, dict(outcomes), hashes, stack, sample
 
 
-def explore(key, execute, check, bound, cap=200000, split=None):
+def explore(key, execute, check, bound, cap=200000, split=None, free_forced=True):
   """Explores all executions with at most `bound` deviations (stateless DFS, parallel).
 
   Returns dict(executions, steps, violations, outcomes, states, capped, default_points, samples).
@@ -113,10 +122,17 @@ def explore(key, execute, check, bound, cap=200000, split=None):
   """
   import multiprocessing  # pylint: disable=g-import-not-at-top
   _HARNESS[key] = (execute, check)
+  FREE_FORCED[0] = free_forced
   # determinism self-check: the default schedule twice
   a = execute([])
   b = execute([])
   if [(p['n'], p['label']) for p in a.points] != [(p['n'], p['label']) for p in b.points] or repr(a.result) != repr(b.result):
+    early = list(check(a)) + list(check(b))
+    if early:
+      # The same (default) schedule behaved differently when run a second time in this process *and* violates the
+      # property: state of the code under test leaks from one run into the next.  Report what was observed.
+      return {'executions': 2, 'steps': a.steps + b.steps, 'violations': early, 'outcomes': {}, 'states': len(a.state_hashes | b.state_hashes),
+              'capped': True, 'default_points': len(a.points), 'samples': [], 'default_labels': [], 'nondeterministic': True}
     raise runtime.Divergence('harness %s is not deterministic under the default schedule:\n%r\nvs\n%r'
                              % (key, [(p['n'], p['label']) for p in a.points][:40], [(p['n'], p['label']) for p in b.points][:40]))
   done = 1
@@ -137,7 +153,7 @@ def explore(key, execute, check, bound, cap=200000, split=None):
         capped = True
         break
       batch = [stack.pop() for _ in range(min(len(stack), jobs * 4))]
-      items = [(key, pre, u, bound) for pre, u in batch]
+      items = [(key, pre, u, bound, free_forced) for pre, u in batch]
       if pool is not None:
         res = pool.map(_chunk_guard, items, 1)
       else:
